@@ -62,9 +62,25 @@ func (fr *frame) get(key ssa.Value) Value {
 }
 
 // global returns the address of a package-level variable, running the package init lazily.
+// osErrAlias: package os is never initialised (its initialiser touches the runtime), but its exported error
+// variables are plain aliases of io/fs's (os.ErrNotExist = fs.ErrNotExist, ...): reads of them are served from io/fs,
+// which is initialised normally. Without this they would read as nil errors.
+var osErrAlias = map[string]string{"ErrInvalid": "ErrInvalid", "ErrPermission": "ErrPermission", "ErrExist": "ErrExist", "ErrNotExist": "ErrNotExist", "ErrClosed": "ErrClosed"}
+
 func (r *run) global(g *ssa.Global) *Value {
 	if p, ok := r.globals[g]; ok {
 		return p
+	}
+	if g.Pkg != nil && g.Pkg.Pkg.Path() == "os" {
+		if target, ok := osErrAlias[g.Name()]; ok {
+			if fsPkg := r.eng.Prog.ImportedPackage("io/fs"); fsPkg != nil {
+				if tg, ok := fsPkg.Members[target].(*ssa.Global); ok {
+					p := r.global(tg)
+					r.globals[g] = p
+					return p
+				}
+			}
+		}
 	}
 	r.ensureInit(g.Pkg)
 	if p, ok := r.globals[g]; ok {
@@ -567,6 +583,9 @@ func (fr *frame) prepareCall(c *ssa.CallCommon) (fn Value, args []Value) {
 	} else {
 		recv := v.(Iface)
 		if recv.T == nil {
+			if os.Getenv("GOSYM_PRINT") != "" {
+				fmt.Fprintln(os.Stderr, "[nil interface method call]", c.Method.Name(), "in", fr.fn.String(), fr.r.stackTail(6))
+			}
 			panic(runtimePanic("invalid memory address or nil pointer dereference (method call on nil interface)"))
 		}
 		f := fr.r.eng.Prog.LookupMethod(recv.T, c.Method.Pkg(), c.Method.Name())
